@@ -284,6 +284,15 @@ func c05(r *Report) {
 						r.Paths++
 						_, form := tlsAssert(extractOf(ta, 0))
 						r.Decide("path", "(*M.Proxy).handle: a TLS connection always gets req.TLS ("+form+" form)", pp == nil, "every path from the ok edge stores req.TLS before the modifier", "a request on a TLS connection can reach the modifier without req.TLS", ta.Pos())
+						// ... and marks the session secure before the scheme is decided
+						isMark := func(i ssa.Instruction) bool { _, y := isCall(i, "(*M.Session).MarkSecure"); return y }
+						decided := func(i ssa.Instruction) bool {
+							_, y := isCall(i, "(*M.Session).IsSecure")
+							return y || consumer(i)
+						}
+						pm := g.PathTo(blockStart(e.True), true, isMark, decided)
+						r.Paths++
+						r.Decide("path", "(*M.Proxy).handle: a TLS connection always marks its session secure ("+form+" form)", pm == nil, "every path from the ok edge calls MarkSecure before the IsSecure test", "a request on a TLS connection ("+form+") reaches the scheme decision with the session unmarked: it keeps scheme http and is forwarded in cleartext", ta.Pos())
 					}
 				}
 			}
@@ -334,6 +343,46 @@ func c05(r *Report) {
 	})
 
 	r.Guard("C05.R3", "the session's connection follows the TLS upgrade (a hijacker gets the decrypted connection)", func() {
+		// what setConn records is what Hijack and the connection loop hand out: every field
+		// setConn stores is loaded by Hijack and by currentConn, and each of them returns
+		// nothing but those fields
+		if ST := w.Named("", "Session"); ST != nil {
+			sc, hj, cc := w.method(ST, "setConn"), w.method(ST, "Hijack"), w.method(ST, "currentConn")
+			if sc == nil || hj == nil || cc == nil {
+				r.Undecided("(*M.Session).setConn / Hijack / currentConn", "UNRESOLVED")
+			} else {
+				for fo := range fieldsWritten(sc) {
+					for _, g := range []*ssa.Function{hj, cc} {
+						if g == cc && fo.Type().String() != "net.Conn" {
+							continue
+						}
+						_, rd := fieldsRead(g)[fo]
+						r.Decide("sibling", fmt.Sprintf("%s hands out Session.%s as recorded by setConn", fnName(g), fo.Name()), rd, "the field setConn stores is the one loaded", fmt.Sprintf("setConn records the upgraded connection in Session.%s, which %s does not read: after the TLS upgrade it still hands out the accept-time (cleartext) connection", fo.Name(), fnName(g)), g.Pos())
+					}
+				}
+			}
+		}
+		// and the traffic-shaping wrapper hands out the connection directly under it (the
+		// exchange function asserts that one to *tls.Conn)
+		if gw := w.Fn("trafficshape", "Conn.GetWrappedConn"); gw != nil && gw.Blocks != nil {
+			r.Touch(gw)
+			direct := len(returns(gw)) > 0
+			for _, ret := range returns(gw) {
+				for _, v := range resolveAll(ret.Results[0]) {
+					ld, ok := v.(*ssa.UnOp)
+					if !ok || ld.Op != token.MUL {
+						direct = false
+						continue
+					}
+					if fa, ok := ld.X.(*ssa.FieldAddr); !ok || fa.X != ssa.Value(gw.Params[0]) || fieldObj(fa).Name() != "conn" {
+						direct = false
+					}
+				}
+			}
+			r.Decide("flow", "(*M/trafficshape.Conn).GetWrappedConn returns the connection it wraps", direct, "return c.conn", "GetWrappedConn returns something other than the directly wrapped connection (e.g. the socket under a TLS layer): on a traffic-shaped listener the exchange function's *tls.Conn assertion fails, the session stays insecure and decrypted requests go upstream as http", gw.Pos())
+		} else {
+			r.Undecided("(*M/trafficshape.Conn).GetWrappedConn", "UNRESOLVED")
+		}
 		gh := G(hcr)
 		n := 0
 		for _, c := range plainCalls(hcr, nHandle) {
@@ -371,6 +420,7 @@ func c05(r *Report) {
 	})
 
 	r.Guard("C05.R4", "the CONNECT request and everything inside its tunnel share one session", func() {
+		setterStoresRule(r, "", "Proxy", "SetMITM", "mitm", "CONNECT tunnels are relayed blindly although MITM was configured")
 		for _, c := range plainCalls(hcr, nHandle) {
 			r.Decide("flow", "hand-off passes the handler's own context: "+site(hcr, c), c.Call.Args[1] == ssa.Value(hcr.Params[1]), "ctx parameter forwarded", "a different context (hence session) is used inside the tunnel", c.Pos())
 		}
